@@ -1168,6 +1168,10 @@ func (p *printVisitor) EnterSchemaDefinition(ref int) {
 }
 
 func (p *printVisitor) LeaveSchemaDefinition(ref int) {
+	if len(p.document.SchemaDefinitions[ref].RootOperationTypeDefinitions.Refs) == 0 {
+		// the opening brace is written by the first root operation type definition
+		p.write(literal.LBRACE)
+	}
 	if p.indent != nil {
 		p.write(literal.LINETERMINATOR)
 	}
